@@ -413,7 +413,7 @@ Section Reset.
       apply update_nth_same. exact H.
   Qed.
 
-  Lemma mapM_reset_scalars (g : pat -> outcome pat) l : scalars l = true -> mapM (reset_item g) l = Yield l.
+  Lemma mapM_reset_scalars (g : pat -> outcome pat) l : scalars l = true -> mapM (reset_value g) l = Yield l.
   Proof.
     induction l as [|x l IH]; intro H; [reflexivity|]. destruct x; try discriminate.
     cbn. rewrite (IH H). reflexivity.
@@ -823,7 +823,7 @@ Section Reset.
     - rewrite step_wrap_eq. reset_case f0 IH reset_wrap_eq.
     - rewrite step_anyref_eq. reset_case f0 IH reset_ref_eq.
     - destruct (preset_step f' p0 t H) as [o [p' [E [_ Rp']]]]. rewrite E. cbn [snd].
-      rewrite !reset_preset_eq. cbn [reset_field]. rewrite Rp', (arg_anext f0 IH f' t H0). reflexivity.
+      rewrite !reset_preset_eq. cbn [reset_field reset_value]. rewrite Rp', (arg_anext f0 IH f' t H0). reflexivity.
   Qed.
 
   (** ** after any history: k calls of next() (each with any outcome), then reset() *)
